@@ -207,3 +207,19 @@ Example end_to_end_quoted_object_example : forall nq,
   end.
 Proof. intros [|]; vm_compute; repeat split; reflexivity. Qed.
 Print Assumptions end_to_end_quoted_object_example.
+
+(* FOR EVERY DOCUMENT, at any nesting depth: whatever triples maps are declared rml:NonAssertedTriplesMap (`na` chooses the flag of each), the terms
+   and quoted triples of every triples map are unchanged -- a quoted map is quoted the same whether or not it is asserted -- and the document gives
+   exactly the statements of the triples maps asserted under the new flags, each as before (generation rules; `Proofs/DocAssertP.v`) *)
+From Morph Require Import Proofs.DocAssertP.
+Theorem quoting_does_not_depend_on_assertedness : forall scfg fe d tables na f t r,
+  subj_terms scfg fe (map (reflag na) d) tables f (reflag na t) r = subj_terms scfg fe d tables f t r /\
+  tm_triples scfg fe (map (reflag na) d) tables f (reflag na t) r = tm_triples scfg fe d tables f t r /\
+  (forall o, obj_terms scfg fe (map (reflag na) d) tables f (reflag na t) o r = obj_terms scfg fe d tables f t o r).
+Proof. exact terms_reflag. Qed.
+Print Assumptions quoting_does_not_depend_on_assertedness.
+Theorem assertedness_only_selects_the_contributing_triples_maps : forall scfg fe d tables na x,
+  In x (spec_lines scfg fe (map (reflag na) d) tables) <->
+  exists t r, In t d /\ asserted (reflag na t) = true /\ In r (tables (t_src t)) /\ In x (tm_row_lines scfg fe d tables t r).
+Proof. exact reflagged_document_lines. Qed.
+Print Assumptions assertedness_only_selects_the_contributing_triples_maps.
